@@ -334,8 +334,86 @@ fn special_identifiers<S: ShortGroupSignatureScheme>(em: &mut Emitter, suite: &s
     }
 }
 
+/// revocation batches longer than any block size an implementation might process them in (255, 256, 257, 300, …): the
+/// published value is the old value divided by (y+α) for *every* identifier of the batch, equals the value reached by
+/// revoking the same identifiers in small batches, and no handle of a revoked identifier verifies against it
+fn large_batches<S: ShortGroupSignatureScheme>(em: &mut Emitter, rng: &mut Rng, suite: &str) {
+    let sizes: Vec<usize> = if em.thorough() { vec![127, 129, 255, 256, 257, 300, 511, 513, 1030] } else { vec![257, 300] };
+    for n in sizes {
+        let schema = basic_schema();
+        let (_public, mut issuer) = Issuer::<S>::new(&schema);
+        let pk = credx::knox::accumulator::vb20::PublicKey::from(&issuer.revocation_key);
+        let alpha = issuer.revocation_key.0;
+        let tag = rng.below(1 << 20);
+        let ids: Vec<String> = (0..n).map(|i| format!("L{}-{}-{}", n, tag, i)).collect();
+        let mut handles: Vec<MembershipWitness> = vec![];
+        let mut ok = true;
+        for id in &ids {
+            match call(|| issuer.sign_credential(&[RevocationClaim::from(id.as_str()).into(), HashedClaim::from("N").into(), NumberClaim::from(30).into()])) {
+                Out::Ok(b) => handles.push(b.credential.revocation_handle),
+                _ => {
+                    ok = false;
+                    break;
+                }
+            }
+        }
+        if !ok {
+            em.count("large-batch:issuance-failed");
+            continue;
+        }
+        let mut small: Issuer<S> = serde_json::from_str(&serde_json::to_string(&issuer).unwrap()).unwrap();
+        let before = issuer.revocation_registry.value;
+        let claims: Vec<RevocationClaim> = ids.iter().map(|i| RevocationClaim::from(i.as_str())).collect();
+        em.oracle_case(&format!("{} large-batch {}", suite, n));
+        em.count(&format!("large-batch:{}", n));
+        let replay = json!({"suite": suite, "batch_size": n, "ids": format!("L{}-{}-0 .. {}", n, tag, n - 1)});
+        match call(|| issuer.revoke_credentials(&claims)) {
+            Out::Ok(()) => {}
+            o => {
+                em.violation("large-batch-revoke-failed", format!("{}: revoking {} active identifiers in one batch failed ({})", suite, n, o.class()), replay.clone());
+                continue;
+            }
+        }
+        let mut want = before.0;
+        for id in &ids {
+            want *= (Element::hash(id.as_bytes()).0 + alpha).invert().unwrap();
+        }
+        let value = issuer.revocation_registry.value;
+        if value.0 != want {
+            em.violation("large-batch-value", format!("{}: after revoking {} identifiers in one batch the published value is not the old value divided by (y+key) for every identifier", suite, n), replay.clone());
+        }
+        for chunk in claims.chunks(32) {
+            let _ = call(|| small.revoke_credentials(chunk));
+        }
+        if small.revocation_registry.value.0 != value.0 {
+            em.violation("large-batch-depends-on-batching", format!("{}: revoking {} identifiers at once and in batches of 32 gives different published values", suite, n), replay.clone());
+        }
+        if !issuer.revocation_registry.active.is_empty() {
+            em.violation("large-batch-bookkeeping", format!("{}: identifiers still active after a batch revocation of all {}", suite, n), replay.clone());
+        }
+        for i in [0usize, 1, n / 2, 255.min(n - 1), 256.min(n - 1), n - 2, n - 1] {
+            let y = Element::hash(ids[i].as_bytes());
+            if handles[i].verify(y, pk, value) {
+                em.violation("large-batch-revoked-handle-verifies", format!("{}: identifier #{} of a batch of {} was revoked but its handle still verifies against the published value", suite, i, n), replay.clone());
+                break;
+            }
+            // the last handle the issuer would have handed out
+            let w = MembershipWitness(before.0 * (y.0 + alpha).invert().unwrap());
+            if w.verify(y, pk, value) {
+                em.violation("large-batch-revoked-handle-verifies", format!("{}: identifier #{} of a batch of {} was revoked but a handle for the previous value verifies against the published value", suite, i, n), replay.clone());
+                break;
+            }
+            if call(|| issuer.update_revocation_handle(RevocationClaim::from(ids[i].as_str()))).is_ok() {
+                em.violation("refresh-for-inactive", format!("{}: refresh succeeded for revoked identifier #{} of a batch of {}", suite, i, n), replay.clone());
+                break;
+            }
+        }
+    }
+}
+
 pub fn gen_c13_suite<S: ShortGroupSignatureScheme>(em: &mut Emitter, rng: &mut Rng, suite: &str) {
     special_identifiers::<S>(em, suite);
+    large_batches::<S>(em, &mut rng.sub(1313), suite);
     let ops = alphabet();
     // exhaustive prefix tree
     let depth = em.n(2, 3);
@@ -363,7 +441,8 @@ pub fn gen_c13(em: &mut Emitter, rng: &mut Rng) {
                refresh, JSON persist-restore) to the stated depth, random longer histories beyond; after every operation the return class, \
                the ordered bookkeeping sets, the registry value and the verdict of every handle ever issued are compared with the Lean \
                state machine; oracle on the real code: Err leaves state unchanged, active = issued∖revoked, refresh ⇔ active, \
-               revoked handles never verify, revoked ids never re-issued".into();
+               revoked handles never verify, revoked ids never re-issued; \
+               single batches of 257 / 300 (thorough: 127 … 1030) identifiers: value = old / ∏(y+α) over the whole batch = value after batches of 32".into();
     gen_c13_suite::<credx::knox::bbs::BbsScheme>(em, rng, "bbs");
     gen_c13_suite::<credx::knox::ps::PsScheme>(em, rng, "ps");
 }
